@@ -150,13 +150,13 @@ def oracle(ck, extended):
         h0 = gen.int_filter(rng, L); h1 = gen.int_filter(rng, L)
         kind = it % 4
         if kind == 0:
-            oracle_fwd_grad(ck, 1, m, J, (h0, h1), (gen.pick_len(rng, L, 16 if q else 32),))
+            rt.guard(ck, oracle_fwd_grad, ck, 1, m, J, (h0, h1), (gen.pick_len(rng, L, 16 if q else 32),))
         elif kind == 1:
-            oracle_fwd_grad(ck, 2, m, 1 if q else J, (h0, h1), (gen.pick_len(rng, L, 8), gen.pick_len(rng, L, 8)))
+            rt.guard(ck, oracle_fwd_grad, ck, 2, m, 1 if q else J, (h0, h1), (gen.pick_len(rng, L, 8), gen.pick_len(rng, L, 8)))
         elif kind == 2:
-            oracle_inv_grad(ck, 1, m, J, (h0, h1), gen.pick_len(rng, L, 16 if q else 32), rng.randint(1, 2 ** (J + 1) - 1))
+            rt.guard(ck, oracle_inv_grad, ck, 1, m, J, (h0, h1), gen.pick_len(rng, L, 16 if q else 32), rng.randint(1, 2 ** (J + 1) - 1))
         else:
-            oracle_inv_grad(ck, 2, m, 1 if q else J, (h0, h1), [gen.pick_len(rng, L, 8), gen.pick_len(rng, L, 8)], rng.randint(1, 2 ** ((1 if q else J) + 1) - 1))
+            rt.guard(ck, oracle_inv_grad, ck, 2, m, 1 if q else J, (h0, h1), [gen.pick_len(rng, L, 8), gen.pick_len(rng, L, 8)], rng.randint(1, 2 ** ((1 if q else J) + 1) - 1))
 
 
 def run(ck):
